@@ -16,10 +16,12 @@ CONSTANTS Caps,       \* capacities to explore: numbers, and NoCap for "unbounde
 
 BadKeys == {"empty_key", "nonstr_key"}
 ValueClasses == {"short_str", "long_str", "int", "bool", "float", "bytes_ok", "bytes_bad", "seq_same", "seq_none",
-                 "seq_mixed", "seq_badtype", "dict_value", "none_value"}
+                 "seq_mixed", "seq_badtype", "dict_value", "none_value",
+                 "zero_int", "false_bool", "empty_str", "empty_seq"}      \* valid values that happen to be falsy
 
 Clean(vc) ==
-    CASE vc \in {"short_str", "int", "bool", "float"} -> vc
+    CASE vc \in {"short_str", "int", "bool", "float", "zero_int", "false_bool", "empty_str"} -> vc
+      [] vc = "empty_seq" -> "empty_tuple"
       [] vc = "long_str" -> "cut_str"              \* cut to the value length limit
       [] vc = "bytes_ok" -> "decoded_str"
       [] vc = "seq_same" -> "tuple_same"
